@@ -68,7 +68,7 @@ def run(ctx):
                       {"family": "faults", "run": m, "trace": trs[t], "rejected_line": hw, "rejected_event": ev[0] if ev else None})
     # seeded negotiation scenarios with read/write faults and cancellation (instrumented features)
     pools = nc.emit_pool(ctx)
-    trn, summn = nc.run_scenarios(ctx, pools["pool_quick.json"], n=3000 if quick else 40000, faults=True, name="c04-neg")
+    trn, summn = nc.run_scenarios(ctx, pools["pool_quick.json"], n=3000 if quick else 200000, faults=True, name="c04-neg")
     rejn, rn = nc.validate(ctx, trn)
     nc.report_rejections(ctx, trn, rejn, what="negotiation trace under faults (C04) not a behaviour of Negotiation.tla")
     ctx.log("negotiation scenarios with faults: %d traces, %d rejected" % (summn["traces"], len(rejn)))
